@@ -5,6 +5,7 @@ import (
 	"io"
 	"os"
 	"path/filepath"
+	"strings"
 
 	"github.com/emirpasic/gods/sets/treeset"
 	"github.com/tableauio/tableau/internal/importer/book"
@@ -116,26 +117,32 @@ func readCSVRows(filename string, topN uint) (rows [][]string, err error) {
 	// If FieldsPerRecord is negative, records may have a variable number of fields.
 	r.FieldsPerRecord = -1
 
+	// NOTE: encoding/csv skips empty lines, but rows are addressed by their
+	// position in the file (namerow, typerow, ...). An empty line is the row of
+	// a one-column sheet whose only cell is blank: keep it as a blank row.
+	nextLine := 1
 	// topN: 0 means read all rows
-	if topN == 0 {
-		return r.ReadAll()
-	}
-
-	// read topN rows
-	var nrow uint
-	for {
-		nrow++
-		if nrow > topN {
-			break
-		}
+	for topN == 0 || uint(len(rows)) < topN {
 		row, err := r.Read()
 		if err != nil {
 			if err == io.EOF {
 				break
 			}
+			if topN == 0 {
+				return nil, err
+			}
 			return nil, xerrors.Wrapf(err, "read one CSV row failed")
 		}
+		line, _ := r.FieldPos(0)
+		for ; nextLine < line; nextLine++ {
+			rows = append(rows, []string{})
+		}
 		rows = append(rows, row)
+		lastLine, _ := r.FieldPos(len(row) - 1)
+		nextLine = lastLine + strings.Count(row[len(row)-1], "\n") + 1
+	}
+	if topN != 0 && uint(len(rows)) > topN {
+		rows = rows[:topN]
 	}
 	return rows, nil
 }
